@@ -38,14 +38,14 @@ pub fn batch_cfg(prop: &str, tier: Tier, seed: u64) -> BatchCfg {
             cfg.runs = if quick { 40_000 } else { 2_000_000 };
             cfg.chunk = if quick { 500 } else { 5000 };
             cfg.sample_every = cfg.runs / 4;
-            cfg.rule = "Seeded simulation runs: each run draws (from one choice tape) a registry of 1-5 packages x 0-4 releases (some yanked / pre-release), 1-6 requested keys (same name at several versions, versioned+unversioned, missing package/version, invalid names) in a drawn request order, a scheduler flavour, latencies and a fault plan, then executes the real RegistryPackageResolver::resolve on the simulator's executor. A run is non-trivial if at least one fault fired or at least two keys were requested; distinct = distinct SHA-256 digests of the run's event log (scenario + every issue/fire/poll/spawn/abort event + outcome).".into();
+            cfg.rule = "Seeded simulation runs: each run draws (from one choice tape) a registry of 1-5 packages x 0-4 releases (some yanked / pre-release), 1-6 requested keys (same name at several versions, versioned+unversioned, missing package/version, invalid names) in a drawn request order, a scheduler flavour, latencies and a fault plan, then executes the real RegistryPackageResolver::resolve on the simulator's executor; one run in four instead goes through the hand-over in wac_cli::PackageResolver::resolve (a parsed document, some keys also present on a simulated disk in the documented layout, the rest asked of the registry). A run is non-trivial if at least one fault fired or at least two keys were requested; distinct = distinct SHA-256 digests of the run's event log (scenario + every issue/fire/poll/spawn/abort event + outcome).".into();
             cfg.assumptions = vec![
                 "The reference registry's answers (missing log => PackageDoesNotExist; exact version absent or yanked => PackageVersionDoesNotExist; latest = highest non-yanked release matching `*`, pre-releases excluded) are transcribed from warg-client 0.9.0 / warg-protocol 0.9.0 sources; the real Warg client, server and network are not run.".into(),
                 "Seam R (cargo feature verif-hooks) replaces only the `use` of warg_client::{Client,ClientError,Config,FileSystemClient} and the path `tokio::spawn`; the body of RegistryPackageResolver::resolve is the shipped code.".into(),
                 "A clean batch is evidence over the sampled schedules and fault sequences, not a proof.".into(),
             ];
             cfg.components = json!({
-                "real": ["wac_resolver::RegistryPackageResolver::{new,resolve} (registry.rs, unmodified body)", "futures::stream::FuturesUnordered", "indexmap", "std::fs::read of downloaded content (tmpfs)", "warg_protocol::registry::PackageName", "semver"],
+                "real": ["wac_resolver::RegistryPackageResolver::{new,resolve} (registry.rs, unmodified body)", "wac_cli::PackageResolver::{new,resolve} (src/lib.rs: file-system lookup first, registry for the rest), wac_resolver::packages, FileSystemPackageResolver", "futures::stream::FuturesUnordered", "indexmap", "std::fs::read of downloaded content (tmpfs)", "warg_protocol::registry::PackageName", "semver"],
                 "stub": ["warg_client::Client + Warg server + HTTP (reference registry model behind seam R)", "tokio task scheduler (simulator's discrete-event executor; which ready task is polled next and which response arrives next are tape draws)", "clock (simulated microseconds; no real time is read)"],
             });
         }
